@@ -184,4 +184,161 @@ theorem digitsVal_natDec (n : Nat) : digitsVal 0 (natDec n) = some n := by
 
 
 
+def AllDigits (l : Bytes) : Prop := ∀ b ∈ l, ∃ d, d < 10 ∧ b = digitB d
+
+theorem pyDigitsAux_digits (l : Bytes) (hl : AllDigits l) (acc : Nat) :
+    pyDigitsAux acc true l = digitsVal acc l := by
+  induction l generalizing acc with
+  | nil => simp [pyDigitsAux, digitsVal]
+  | cons b r ih =>
+    obtain ⟨d, hd, rfl⟩ := hl b (by simp)
+    simp only [pyDigitsAux, digitsVal, (digitB_props d hd).1, if_true]
+    exact ih (fun x hx => hl x (by simp [hx])) _
+
+theorem pyDigits_digits (l : Bytes) (hl : AllDigits l) (hne : l ≠ []) :
+    pyDigits l = digitsVal 0 l := by
+  cases l with
+  | nil => exact absurd rfl hne
+  | cons b r =>
+    obtain ⟨d, hd, rfl⟩ := hl b (by simp)
+    simp only [pyDigits, pyDigitsAux, digitsVal, (digitB_props d hd).1, if_true]
+    exact pyDigitsAux_digits r (fun x hx => hl x (by simp [hx])) _
+
+theorem dropWhile_id {p : UInt8 → Bool} (l : Bytes) (h : ∀ b ∈ l, p b = false) : l.dropWhile p = l := by
+  cases l with
+  | nil => rfl
+  | cons b r => exact List.dropWhile_cons_of_neg (by simp [h b (by simp)])
+
+theorem strip_id (l : Bytes) (h : ∀ b ∈ l, isWs b = false) : strip l = l := by
+  unfold strip
+  rw [dropWhile_id l h, dropWhile_id l.reverse (fun b hb => h b (List.mem_reverse.mp hb)), List.reverse_reverse]
+
+theorem natDec_noWs (n : Nat) : ∀ b ∈ natDec n, isWs b = false := by
+  intro b hb; obtain ⟨d, hd, rfl⟩ := natDec_digits n b hb; exact (digitB_props d hd).2.2.1
+
+theorem pyDigits_natDec (n : Nat) : pyDigits (natDec n) = some n := by
+  rw [pyDigits_digits _ (natDec_digits n) (natDec_ne_nil n), digitsVal_natDec]
+
+theorem natDec_head (n : Nat) : ∃ d r, d < 10 ∧ natDec n = digitB d :: r := by
+  have hne := natDec_ne_nil n
+  cases h : natDec n with
+  | nil => exact absurd h hne
+  | cons b r =>
+    obtain ⟨d, hd, rfl⟩ := natDec_digits n b (by rw [h]; simp)
+    exact ⟨d, r, hd, rfl⟩
+
+theorem pyInt_natDec (n : Nat) : pyInt (natDec n) = some (n : Int) := by
+  unfold pyInt
+  rw [strip_id _ (natDec_noWs n)]
+  obtain ⟨d, r, hd, h⟩ := natDec_head n
+  have hp := pyDigits_natDec n
+  rw [h] at hp ⊢
+  simp only [(digitB_props d hd).2.2.2.1, (digitB_props d hd).2.2.2.2.1, if_false, hp, Option.map_some]
+  rfl
+
+theorem pyInt_intDec (z : Int) : pyInt (intDec z) = some z := by
+  unfold intDec
+  by_cases hz : z < 0
+  · simp only [hz, if_true]
+    unfold pyInt
+    have hws : ∀ b ∈ (45 : UInt8) :: natDec z.natAbs, isWs b = false := by
+      intro b hb
+      rcases List.mem_cons.mp hb with rfl | hb
+      · decide
+      · exact natDec_noWs _ b hb
+    rw [strip_id _ hws]
+    simp only [if_true, pyDigits_natDec, Option.map_some]
+    congr 1; show -((z.natAbs : Nat) : Int) = z; omega
+  · simp only [hz, if_false]
+    rw [pyInt_natDec]; congr 1; omega
+
+
+
+/-! ### none-like texts -/
+
+theorem isNoneCS_false_of_head (b : UInt8) (r : Bytes) (h : b ≠ 110) : isNoneCS (b :: r) = false := by
+  unfold isNoneCS tNone
+  have : ascii "none" = [110, 111, 110, 101] := by decide
+  rw [this]
+  simp [h]
+
+theorem isNoneCI_false_of_head (b : UInt8) (r : Bytes) (h : lowerB b ≠ 110) : isNoneCI (b :: r) = false := by
+  unfold isNoneCI tNone lower
+  have : ascii "none" = [110, 111, 110, 101] := by decide
+  rw [this]
+  simp [h]
+
+theorem lowerB_digit : ∀ d, d < 10 → lowerB (digitB d) ≠ 110 ∧ digitB d ≠ 110 := by decide +kernel
+
+theorem intDec_head (z : Int) : ∃ b r, intDec z = b :: r ∧ b ≠ 110 ∧ lowerB b ≠ 110 := by
+  unfold intDec
+  by_cases hz : z < 0
+  · simp only [hz, if_true]; exact ⟨45, _, rfl, by decide, by decide⟩
+  · simp only [hz, if_false]
+    obtain ⟨d, r, hd, h⟩ := natDec_head z.toNat
+    exact ⟨digitB d, r, h, (lowerB_digit d hd).2, (lowerB_digit d hd).1⟩
+
+theorem isNoneCS_intDec (z : Int) : isNoneCS (intDec z) = false := by
+  obtain ⟨b, r, h, h1, _⟩ := intDec_head z
+  rw [h]; exact isNoneCS_false_of_head b r h1
+
+theorem isNoneCI_intDec (z : Int) : isNoneCI (intDec z) = false := by
+  obtain ⟨b, r, h, _, h2⟩ := intDec_head z
+  rw [h]; exact isNoneCI_false_of_head b r h2
+
+theorem intOrNone_intDec (z : Int) : intOrNone (intDec z) = .ok (some z) := by
+  unfold intOrNone
+  simp [isNoneCS_intDec, pyInt_intDec]
+
+/-- bytes of `str(int)`: digits or a minus sign -/
+theorem intDec_bytes (z : Int) : ∀ b ∈ intDec z, b = 45 ∨ ∃ d, d < 10 ∧ b = digitB d := by
+  unfold intDec
+  by_cases hz : z < 0
+  · simp only [hz, if_true]
+    intro b hb
+    rcases List.mem_cons.mp hb with rfl | hb
+    · exact Or.inl rfl
+    · exact Or.inr (natDec_digits _ b hb)
+  · simp only [hz, if_false]; intro b hb; exact Or.inr (natDec_digits _ b hb)
+
+theorem intDec_no (z : Int) (c : UInt8) (h45 : c ≠ 45) (hd : ∀ d, d < 10 → digitB d ≠ c) : c ∉ intDec z := by
+  intro hc
+  rcases intDec_bytes z c hc with rfl | ⟨d, hd', rfl⟩
+  · exact h45 rfl
+  · exact hd d hd' rfl
+
+theorem intDec_noComma (z : Int) : (44 : UInt8) ∉ intDec z :=
+  intDec_no z 44 (by decide) (fun d hd => (digitB_props d hd).2.2.2.2.2.2.1)
+
+theorem intDec_noEq (z : Int) : (61 : UInt8) ∉ intDec z :=
+  intDec_no z 61 (by decide) (fun d hd => (digitB_props d hd).2.2.2.2.2.2.2.1)
+
+/-! ### floats that are multiples of 0.1 -/
+
+theorem pyTenths_tenthsDec (t : Nat) : pyTenths (tenthsDec t) = some t := by
+  unfold pyTenths tenthsDec
+  have hd : t % 10 < 10 := Nat.mod_lt _ (by decide)
+  have hws : ∀ b ∈ natDec (t / 10) ++ 46 :: [digitB (t % 10)], isWs b = false := by
+    intro b hb
+    rcases List.mem_append.mp hb with hb | hb
+    · exact natDec_noWs _ b hb
+    · rcases List.mem_cons.mp hb with rfl | hb
+      · decide
+      · simp at hb; subst hb; exact (digitB_props _ hd).2.2.1
+  rw [strip_id _ hws]
+  have h46 : (46 : UInt8) ∉ natDec (t / 10) := by
+    intro hc; obtain ⟨d, hd', e⟩ := natDec_digits _ _ hc
+    exact (digitB_props d hd').2.2.2.2.2.2.2.2 e.symm
+  rw [splitOn_append_sep 46 _ _ h46, splitOn_noSep 46 [digitB (t % 10)] (by
+    simp; exact fun e => (digitB_props _ hd).2.2.2.2.2.2.2.2 e.symm)]
+  simp only [(digitB_props _ hd).1, if_true, digitsNE, natDec_ne_nil, if_false, digitsVal_natDec,
+    Option.map_some, (digitB_props _ hd).2.1]
+  congr 1; omega
+
+theorem tenthsDec_head (t : Nat) : ∃ b r, tenthsDec t = b :: r ∧ b ≠ 110 := by
+  unfold tenthsDec
+  obtain ⟨d, r, hd, h⟩ := natDec_head (t / 10)
+  exact ⟨digitB d, r ++ 46 :: [digitB (t % 10)], by rw [h]; rfl, (lowerB_digit d hd).2⟩
+
+
 end DashLive.Options
